@@ -9,6 +9,7 @@ func init() {
 }
 
 func runC04(p *Prog, r *Report) {
+	lockBalance(p, r, "C04.8/E1", "protocol/req")
 	q := NewQ(p, r)
 	R := "C04.1/E5"
 	r.Describe(R, "E5 ownership in protocol/req: the message kept in c.reqMsg is cloned before it is handed to the sending goroutine (every transmission, not only the first)")
@@ -83,14 +84,26 @@ func runC04(p *Prog, r *Report) {
 				n++
 			}
 		}
+		cs := rc.Ev("call", "req.(*context).cancelSend")
+		r.Check(len(cs) >= 1 && z.DominatedBy(cs), R, "receiver/answered-context-leaves-send-queue", cs.Pos(p), "cancelSend() before reqMsg is cleared: an answered context is never left in sendQ", "a matching reply clears reqMsg without taking the context out of the send queue (cancelSend): a request answered while queued for retransmission is scheduled again with no message to send")
 		r.Check(len(z) == 1 && n == 1, R, "receiver", z.Pos(p), "reqMsg cleared and resendTimer stopped on a hit", "a matching reply does not clear reqMsg and stop the retry timer: the answered request is sent again")
 	}
 	cn := q.Fn(R, "protocol/req", "context", "cancel")
 	if cn.OK() {
 		z := cn.Ev("store", "recv.reqMsg").Arg(0, "nil")
 		sp := cn.Ev("call", "time.(*Timer).Stop").Arg(0, "recv.resendTimer")
+		cs := cn.Ev("call", "req.(*context).cancelSend")
+		r.Check(len(cs) >= 1 && z.DominatedBy(cs), R, "cancel/leaves-send-queue", cs.Pos(p), "cancelSend() before reqMsg is cleared", "cancel clears reqMsg without taking the context out of the send queue")
 		r.Check(len(z) == 1 && len(sp) == 1, R, "cancel", z.Pos(p), "reqMsg cleared and resendTimer stopped", "cancel does not clear reqMsg and stop the retry timer")
 	}
+
+	R = "C04.7/request-state-transitions"
+	r.Describe(R, "who may set and who may clear the per-request state of a REQ context (reqMsg, repMsg, reqID, lastPipe): any other writer resurrects or loses a request")
+	rq := "protocol/req."
+	q.StoreClasses(R, "reqMsg", rq+"context.reqMsg", map[string]string{rq + "(*socket).send": "set", rq + "(*pipe).receiver": "nil", rq + "(*context).cancel": "nil"})
+	q.StoreClasses(R, "repMsg", rq+"context.repMsg", map[string]string{rq + "(*pipe).receiver": "set", rq + "(*context).cancel": "nil", rq + "(*context).RecvMsg": "nil"})
+	q.StoreClasses(R, "reqID", rq+"context.reqID", map[string]string{rq + "(*context).SendMsg": "set,nil", rq + "(*context).cancel": "nil", rq + "(*context).RecvMsg": "nil"})
+	q.StoreClasses(R, "lastPipe", rq+"context.lastPipe", map[string]string{rq + "(*socket).send": "set", rq + "(*socket).RemovePipe": "nil"})
 
 	R = "C04.6/pipe-loss"
 	r.Describe(R, "RemovePipe: a request carried by the lost pipe is cancelled when retry is off (resendTime == 0), else re-sent at once")
@@ -134,6 +147,9 @@ func runC04(p *Prog, r *Report) {
 			r.Check(strings.HasSuffix(rsd[0].Args[1], ".reqID"), R, "resend-current-id", rsd.Pos(p), "re-sends the current id", "re-sent with an id other than the context's current one")
 		}
 	}
+	q.ListRemoval(R, "RemovePipe/leaves-ready-list", rp, "recv.readyQ", reqMu, "RemovePipe does not take the departing pipe out of the ready list by shortening it: a dead pipe is scheduled and the (re)transmission handed to it is lost")
+	q.ListRemoval("C04.5/answered-never-resent", "cancelSend/leaves-send-queue", q.Fn("C04.5/answered-never-resent", "protocol/req", "context", "cancelSend"), "recv.s.sendQ", reqMu, "cancelSend does not take the context out of the send queue by shortening it")
+	q.StoreClasses(R, "readyQ-writers", "protocol/req.socket.readyQ", map[string]string{"protocol/req.(*socket).send": "set", "protocol/req.(*pipe).sendCtx": "set", "protocol/req.(*socket).AddPipe": "set", "protocol/req.(*socket).RemovePipe": "set"})
 	sc := q.Fn(R, "protocol/req", "pipe", "sendCtx")
 	if sc.OK() {
 		st := sc.Ev("store", "recv.s.readyQ")
